@@ -290,6 +290,76 @@ def i2(ctx):
 
 
 # ---------------------------------------------------------------------------------------------
+ITEM_ACCESSORS = {'TupleGetItem', 'TupleGetItemAs', 'ListGetItem', 'ListGetItemAs'}
+
+
+@rule('I4', floor=2, title='an index that is not the induction variable of a counted loop is compared with a bound before it is used')
+def i4(ctx):
+    """The item accessors are unchecked (tuples) or checked only in some configurations (lists).
+    An index is safe by construction when it is a constant below a validated length (K7, S3) or
+    the induction variable of `for (i = ..; i < n; ++i)`; any other index - a counter advanced in
+    an iterator loop, a parameter - must be dominated by a relational test of that very variable
+    one of whose edges cannot reach the read."""
+    prog = ctx.cxx()
+    n = 0
+    for f in live_funcs(prog):
+        if f.body is None or short(f) in ITEM_ACCESSORS:
+            continue
+        parent = None
+        cfg = None
+        for c in calls_in(f.body, ITEM_ACCESSORS):
+            a = c.call_args()
+            if len(a) < 2 or a[1] is None:
+                continue
+            ix = strip_casts(a[1])
+            if const_eval(ix) is not None:
+                continue
+            while ix is not None and ix.kind == 'UnaryOperator' and ix.op in ('++', '--'):
+                ix = strip_casts(ix.kids[0])
+            v = member_path(ix)
+            if v is None:
+                continue
+            if parent is None:
+                parent = enclosing_map(f.body)
+                cfg = cfg_of(f)
+            induction = False
+            for l in ancestors(c, parent):
+                if l.kind == 'ForStmt' and len(l.kids) > 2 and l.kids[2] is not None and \
+                        l.kids[2].kind == 'BinaryOperator' and l.kids[2].op in ('<', '<=', '>', '>=', '!=') and \
+                        member_path(strip_casts(l.kids[2].kids[0])) == v:
+                    induction = True
+            if induction:
+                continue
+            n += 1
+            rn = cfg.cnode_of(c)
+            if rn is None:
+                n -= 1
+                continue
+            ok = False
+            for cn in cfg.nodes:
+                if cn.kind != 'cond' or cn.ast is None or cn.ast.kind != 'BinaryOperator' or \
+                        cn.ast.op not in ('<', '<=', '>', '>='):
+                    continue
+                if v not in (member_path(strip_casts(cn.ast.kids[0])), member_path(strip_casts(cn.ast.kids[1]))):
+                    continue
+                if not cfg.dominates(cn.idx, rn):
+                    continue
+                t = cfg.forward_reachable([w for (w, lab) in cfg.succ[cn.idx] if lab is True])
+                fl = cfg.forward_reachable([w for (w, lab) in cfg.succ[cn.idx] if lab is False])
+                if (rn in t) != (rn in fl):
+                    ok = True
+            owner = f if not f.is_lambda else prog.funcs.get(f.parent, f)
+            ctx.check('%s/%s[%s]' % (short(owner), c.callee_name().replace('As', ''), 'counter' if
+                                     (ix.ref or {}).get('kind') != 'ParmVarDecl' else 'parameter'), ok,
+                      '%s: index `%s` is range-tested on every path to %s' % (inst(f), v, c.callee_name()),
+                      '%s: `%s(%s, %s)` uses an index that no dominating test bounds: it is advanced '
+                      'by the loop over another iterable, so a shorter tuple is read past its end '
+                      '(NULL / garbage object, crash)' % (inst(f), c.callee_name(), a[0].text(3), a[1].text(3)),
+                      c.loc)
+    ctx.require(n >= 2, 'only %d non-induction index reads found' % n)
+
+
+# ---------------------------------------------------------------------------------------------
 @rule('I3', floor=2, title='entry(i)/child(i): range test and negative-index normalisation dominate every use of the index')
 def i3(ctx):
     prog = ctx.cxx()
